@@ -70,7 +70,8 @@ func c17KeyRun(p c17KeyPlan, cfg *certmagic.Config) []c17KeyPhaseObs {
 		}
 		wg.Wait()
 		time.Sleep(3 * time.Millisecond) // the loop stores the last stamp after the hand-over
-		o := c17KeyPhaseObs{Admitted: int(admitted.Load())}
+		// no limiter registered yet (no throttle call so far): nothing that could have been replaced
+		o := c17KeyPhaseObs{Admitted: int(admitted.Load()), Same: first == nil}
 		if rl, ok := certmagic.VerifRateLimiterFor(key); ok {
 			if first == nil {
 				first = rl
@@ -134,6 +135,8 @@ func c17KeyPlans(tier string) []c17KeyPlan {
 		// no change: the control
 		{DeadlineMs: 60, Phases: []c17KeyPhase{{2, 3600, 1}, {2, 3600, 3}}},
 		{DeadlineMs: 60, Phases: []c17KeyPhase{{3, 3600, 2}, {3, 5000, 0}, {2, 5000, 3}}},
+		// a first phase without callers: the limiter is created in phase 2, with phase 2's limits
+		{DeadlineMs: 60, Phases: []c17KeyPhase{{1, 3600, 0}, {3, 4200, 3}, {2, 3600, 2}}},
 	}
 	if tier == "thorough" {
 		for i := 0; i < 40; i++ {
@@ -161,7 +164,14 @@ func c17KeyHistories(w *emit.Writer, plans []c17KeyPlan) {
 				total += o.Admitted
 				want += p.Phases[j].Callers
 			}
-			if total >= min(want, p.Phases[0].N) {
+			n1 := 0 // the limits of the first phase that has callers
+			for _, ph := range p.Phases {
+				if ph.Callers > 0 {
+					n1 = ph.N
+					break
+				}
+			}
+			if total >= min(want, n1) {
 				break
 			}
 			w.Hist("key_history: repeated_too_few_admitted")
